@@ -155,6 +155,31 @@ Theorem C16_self_argument_before_repair_undefined : forall b fa fc,
 Proof. exact self_argument_old_shapes_undefined. Qed.
 Print Assumptions C16_self_argument_before_repair_undefined.
 
+(* hash depends on the current characters only — not on the allocation behind the terminator, not on
+   the history (in particular not on what was hashed before at the same address) *)
+Theorem C16_hash_of_characters_only : forall b s, repr b s -> c_step b OHash = (b, SHash (murmur64 s)).
+Proof. exact hash_of_characters_only. Qed.
+Print Assumptions C16_hash_of_characters_only.
+
+Theorem C16_hash_independent_of_history : forall v1 ops1 v2 ops2,
+  nulfree v1 -> Forall op_ok ops1 -> nulfree v2 -> Forall op_ok ops2 ->
+  snd (spec_run v1 ops1) = snd (spec_run v2 ops2) ->
+  exists b1 b2 f1 f2, c_new v1 = Some b1 /\ c_new v2 = Some b2 /\
+    snd (c_run b1 ops1) = f1 /\ snd (c_run b2 ops2) = f2 /\
+    snd (c_step f1 OHash) = snd (c_step f2 OHash).
+Proof. exact hash_independent_of_history. Qed.
+Print Assumptions C16_hash_independent_of_history.
+
+Example C16_hash_independent_of_history_nonvacuous :     (* "abcd" rem "bc"  vs  "a" concat "d" *)
+  snd (spec_run [97; 98; 99; 100] [ORem [98; 99]]) = snd (spec_run [97] [OConcat [100]]).
+Proof. vm_compute. reflexivity. Qed.
+
+(* the source of String_Hash is exactly hash_data(s->val, strlen(s->val)) — no static, nothing remembered —
+   and String_Len / C_Str / Cmp / Mem are single libc calls on s->val (re-extracted on every run) *)
+Theorem C16_observers_stateless_in_source : string_hash_stateless = true /\ string_observers_pure = true.
+Proof. exact (conj gen_hash_stateless gen_observers_pure). Qed.
+Print Assumptions C16_observers_stateless_in_source.
+
 (* why further code shapes are read as the same model by tools/genx_str.py *)
 Theorem C16_shape_rem_empty_needle_returns : forall rc, (forall hl pl nl, rc hl pl nl = (pl - nl + 1)%Z) ->
   forall chk b s, repr b s -> m_rem rc chk b [] = (b, SUnit).
